@@ -67,7 +67,10 @@ func (e *Engine) buildQuery(o *Obligation, axioms []axiomTerm, models bool) stri
 // sliceFacts keeps the facts within `depth` symbol-sharing steps of the goal and
 // path condition (depth 0 = all facts).  Dropping assumptions is always sound.
 func sliceFacts(o *Obligation, depth int) []string {
-	if depth <= 0 {
+	if depth < 0 {
+		return rankedFacts(o, -depth)
+	}
+	if depth == 0 {
 		return o.Facts
 	}
 	// every quantifier-free fact is kept (cheap for the solvers); a quantified fact is kept
@@ -111,6 +114,53 @@ func sliceFacts(o *Obligation, depth int) []string {
 	var out []string
 	for i, f := range o.Facts {
 		if included[i] || !quantified[i] {
+			out = append(out, f)
+		}
+	}
+	return out
+}
+
+// rankedFacts keeps every quantifier-free fact and the n quantified facts that share the rarest symbols
+// with the goal (score: sum over shared symbols of 1/(number of quantified facts mentioning the symbol)).
+// Dropping assumptions is always sound; a proof from a subset is a proof.
+func rankedFacts(o *Obligation, n int) []string {
+	goalSyms := map[string]bool{}
+	symbolsIn(o.Goal, goalSyms)
+	type qf struct {
+		idx   int
+		syms  map[string]bool
+		score float64
+	}
+	var qs []*qf
+	freq := map[string]int{}
+	for i, f := range o.Facts {
+		if strings.Contains(f, "(forall ") || strings.Contains(f, "(exists ") {
+			m := map[string]bool{}
+			symbolsIn(f, m)
+			qs = append(qs, &qf{idx: i, syms: m})
+			for k := range m {
+				freq[k]++
+			}
+		}
+	}
+	for _, q := range qs {
+		for k := range q.syms {
+			if goalSyms[k] && !isBuiltinSym(k) && !strings.Contains(k, "!b") {
+				q.score += 1.0 / float64(freq[k])
+			}
+		}
+	}
+	sort.SliceStable(qs, func(a, b int) bool { return qs[a].score > qs[b].score })
+	keep := map[int]bool{}
+	for i, q := range qs {
+		if i < n && q.score > 0 {
+			keep[q.idx] = true
+		}
+	}
+	var out []string
+	for i, f := range o.Facts {
+		quant := strings.Contains(f, "(forall ") || strings.Contains(f, "(exists ")
+		if !quant || keep[i] {
 			out = append(out, f)
 		}
 	}
@@ -209,6 +259,7 @@ func (e *Engine) buildQuerySliced(o *Obligation, axioms []axiomTerm, models bool
 type solveOpts struct {
 	timeout  int
 	seed     int
+	portfolio bool // also run further seeds (used for the last, long attempt)
 	outDir   string
 	cacheDir string
 	useCache bool
@@ -306,8 +357,29 @@ func (e *Engine) solveAll(obls []*Obligation, axiomsFor func(o *Obligation) []ax
 					}
 				}
 				if o.Result != "unsat" {
+					// ranked slices: only the few quantified assumptions closest to the goal
+					for _, n := range []int{3, 6, 12, 24} {
+						sq := e.buildQuerySliced(o, axs, false, -n)
+						if sq == q {
+							break
+						}
+						sp := fmt.Sprintf("%s.rank%d.smt2", base, n)
+						os.WriteFile(sp, []byte(sq), 0o644)
+						so := &Obligation{Name: o.Name}
+						e.race(so, sp, first)
+						total += so.Seconds
+						os.Remove(sp)
+						if so.Result == "unsat" {
+							o.Result, o.Solver, o.Output = "unsat", so.Solver+fmt.Sprintf(" (the %d quantified assumptions closest to the goal)", n), so.Output
+							break
+						}
+					}
+				}
+				if o.Result != "unsat" {
 					o.Result, o.Output = fullRes, fullOut
-					e.race(o, path, opt)
+					last := opt
+					last.portfolio = true
+					e.race(o, path, last)
 					total += o.Seconds
 				}
 			}
@@ -374,12 +446,38 @@ func runSolver(ctx context.Context, sd solverDef, file string, timeout, seed int
 func (e *Engine) race(o *Obligation, path string, opt solveOpts) {
 	ctx, cancel := context.WithCancel(context.Background())
 	defer cancel()
-	ch := make(chan solverAnswer, len(solvers))
+	type job struct {
+		sd   solverDef
+		seed int
+	}
+	var jobs []job
 	for _, sd := range solvers {
-		go func(sd solverDef) { ch <- runSolver(ctx, sd, path, opt.timeout, opt.seed) }(sd)
+		jobs = append(jobs, job{sd, opt.seed})
+	}
+	if opt.portfolio {
+		// last attempt: quantifier instantiation is sensitive to the random seed, so the two solvers that
+		// decide most obligations are also run with further seeds; any unsat answer is a proof
+		for _, sd := range solvers {
+			extra := 0
+			switch sd.name {
+			case "z3-5.1.0":
+				extra = 3
+			case "cvc5-1.0", "z3-4.8.12":
+				extra = 1
+			}
+			for k := 1; k <= extra; k++ {
+				named := sd
+				named.name = fmt.Sprintf("%s#seed+%d", sd.name, k)
+				jobs = append(jobs, job{named, opt.seed + 7*k})
+			}
+		}
+	}
+	ch := make(chan solverAnswer, len(jobs))
+	for _, j := range jobs {
+		go func(j job) { ch <- runSolver(ctx, j.sd, path, opt.timeout, j.seed) }(j)
 	}
 	var answers []solverAnswer
-	for range solvers {
+	for range jobs {
 		a := <-ch
 		answers = append(answers, a)
 		if a.result == "unsat" && !opt.all {
